@@ -3,6 +3,7 @@ package c16
 import (
 	"context"
 	"crypto/sha256"
+	"crypto/sha512"
 	"encoding/hex"
 	"encoding/json"
 	"errors"
@@ -27,6 +28,8 @@ import (
 	"github.com/regclient/regclient/types/platform"
 	"github.com/regclient/regclient/types/ref"
 	"github.com/regclient/regclient/zz_verif/evid"
+	"github.com/regclient/regclient/zz_verif/rcutil"
+	rm "github.com/regclient/regclient/zz_verif/regmodel"
 )
 
 const prop = "C16"
@@ -44,10 +47,84 @@ type Case struct {
 	Kind    string `json:"kind,omitempty"`
 	Req     Plat   `json:"req"`
 	Entries []Plat `json:"entries,omitempty"`
-	API     bool   `json:"api,omitempty"`  // also through manifest.GetPlatformDesc (OCI index, Docker manifest list)
-	E2E     bool   `json:"e2e,omitempty"`  // also through ManifestGet(WithManifestPlatform) on an OCI layout
-	Str     string `json:"str,omitempty"`  // kind string: the text handed to Parse
-	Comp    *Plat  `json:"comp,omitempty"` // kind string: the lower-case components Str was assembled from (OS "" = architecture only)
+	API     bool   `json:"api,omitempty"`      // also through manifest.GetPlatformDesc (OCI index, Docker manifest list)
+	APIJSON bool   `json:"api_json,omitempty"` // with API: also with the index / manifest list parsed from its JSON body
+	E2E     bool   `json:"e2e,omitempty"`      // also through ManifestGet(WithManifestPlatform) on an OCI layout
+	Str     string `json:"str,omitempty"`      // kind string: the text handed to Parse
+	Comp    *Plat  `json:"comp,omitempty"`     // kind string: the lower-case components Str was assembled from (OS "" = architecture only)
+
+	// How the request reaches the search: "" = Platform struct as spelled (library
+	// use); "parse" = platform.Parse of the assembled string (every CLI --platform
+	// flag, regsync/regbot config); "local" | "local-os" | "local-arch" =
+	// platform.Parse("local" | <local OS> | <local architecture>), in which case
+	// Req is replaced by platform.Local() of the machine running the check.
+	ReqVia string `json:"req_via,omitempty"`
+	// Additional MatchOpt fields next to Platform (regctl artifact get --platform
+	// with --filter-artifact-type / --filter-annotation / --sort-annotation /
+	// --latest): "" | at | ann | ann-key | sort | sort-desc | all. Attr[i] says how
+	// entry i relates to the filter.
+	Filter string    `json:"filter,omitempty"`
+	Attr   []EntAttr `json:"attr,omitempty"`
+	E2EOpt *E2EOpt   `json:"e2e_opt,omitempty"`
+}
+
+// EntAttr are the filter-relevant attributes of one entry.
+type EntAttr struct {
+	AT   bool   `json:"at,omitempty"`   // artifactType is the one the filter asks for
+	Ann  bool   `json:"ann,omitempty"`  // carries the annotation the filter asks for
+	Sort string `json:"sort,omitempty"` // value of the sort annotation ("" = not set)
+}
+
+// E2EOpt varies how the list is stored and addressed in the end-to-end job.
+type E2EOpt struct {
+	Endpoint string `json:"endpoint,omitempty"` // "" = ocidir layout, "registry" = in-memory registry (regmodel)
+	RefForm  string `json:"ref_form,omitempty"` // "" = tag, "digest", "tag+digest"
+	Docker   bool   `json:"docker,omitempty"`   // the list is a Docker manifest list instead of an OCI index
+	Nested   bool   `json:"nested,omitempty"`   // the list sits below an outer index whose single entry is the requested platform
+	Sha512   bool   `json:"sha512,omitempty"`   // every second child manifest is addressed by sha512
+}
+
+const (
+	wantedAT  = "application/vnd.verif.wanted"
+	otherAT   = "application/vnd.verif.other"
+	selAnnot  = "verif.sel"
+	sortAnnot = "verif.sort"
+	maxN      = 12
+)
+
+func (c Case) eligible(i int) bool {
+	var a EntAttr
+	if i < len(c.Attr) {
+		a = c.Attr[i]
+	}
+	switch c.Filter {
+	case "at":
+		return a.AT
+	case "ann", "ann-key":
+		return a.Ann
+	case "all":
+		return a.AT && a.Ann
+	}
+	return true
+}
+
+func (c Case) matchOpt(p *platform.Platform) descriptor.MatchOpt {
+	o := descriptor.MatchOpt{Platform: p}
+	switch c.Filter {
+	case "at":
+		o.ArtifactType = wantedAT
+	case "ann":
+		o.Annotations = map[string]string{selAnnot: "yes"}
+	case "ann-key":
+		o.Annotations = map[string]string{selAnnot: ""}
+	case "sort":
+		o.SortAnnotation = sortAnnot
+	case "sort-desc":
+		o.SortAnnotation, o.SortDesc = sortAnnot, true
+	case "all":
+		o.ArtifactType, o.Annotations, o.SortAnnotation, o.SortDesc = wantedAT, map[string]string{selAnnot: "yes"}, sortAnnot, true
+	}
+	return o
 }
 
 func toPlatform(p Plat) platform.Platform {
@@ -66,7 +143,7 @@ var (
 var absentField []Plat // entries with an absent OS and/or architecture
 
 func init() {
-	for _, av := range archVariants {
+	for _, av := range archVariantsDraw {
 		c := refNorm(Plat{OS: "linux", Arch: av[0], Variant: av[1]})
 		famOf[c.arch] = append(famOf[c.arch], av)
 	}
@@ -77,8 +154,12 @@ func init() {
 	}
 }
 
+// variants that exist but are left out of the exhaustive universe to keep it small
+var archVariantsDraw = append(append([][2]string{}, archVariants...), [2]string{"x86_64", "v4"}, [2]string{"x86-64", "v4"},
+	[2]string{"arm64", "v9"}, [2]string{"aarch64", "v9"})
+
 func genReq(t *rapid.T) Plat {
-	av := rapid.SampledFrom(archVariants).Draw(t, "req_arch")
+	av := rapid.SampledFrom(archVariantsDraw).Draw(t, "req_arch")
 	return Plat{OS: rapid.SampledFrom(osDraw).Draw(t, "req_os"), Arch: av[0], Variant: av[1],
 		OSVer: rapid.SampledFrom(verDraw).Draw(t, "req_ver")}
 }
@@ -104,7 +185,10 @@ func genEntry(t *rapid.T, req Plat) Plat {
 		}
 		fallthrough
 	case k < 5:
-		av := rapid.SampledFrom(archVariants).Draw(t, "e_arch")
+		if k == 2 && rapid.Bool().Draw(t, "e_unknown") {
+			return Plat{OS: "unknown", Arch: "unknown"} // buildkit attestation entry
+		}
+		av := rapid.SampledFrom(archVariantsDraw).Draw(t, "e_arch")
 		return Plat{OS: rapid.SampledFrom(osDraw).Draw(t, "e_os"), Arch: av[0], Variant: av[1], OSVer: rapid.SampledFrom(verDraw).Draw(t, "e_ver")}
 	default:
 		h := refNorm(req)
@@ -200,11 +284,42 @@ func gen(t *rapid.T) Case {
 		}
 		return c
 	}
-	req := genReq(t)
+	return genSelect(t)
+}
+
+func localPlat() Plat {
+	lp := platform.Local()
+	return Plat{OS: lp.OS, Arch: lp.Architecture, Variant: lp.Variant, OSVer: lp.OSVersion}
+}
+
+var filterDraw = []string{"at", "ann", "ann-key", "sort", "sort-desc", "all"}
+
+// genSelect draws a selection case: the request (as a struct, through Parse, or
+// the local platform through a short string), 0-4 entries (sometimes 5-10), and
+// sometimes additional MatchOpt filters.
+func genSelect(t *rapid.T) Case {
+	c := Case{API: true, APIJSON: rapid.IntRange(0, 3).Draw(t, "api_json") == 0, Entries: []Plat{}}
+	switch k := rapid.IntRange(0, 19).Draw(t, "req_via"); {
+	case k < 2:
+		c.Req, c.ReqVia = localPlat(), rapid.SampledFrom([]string{"local", "local-os", "local-arch"}).Draw(t, "local_form")
+	case k < 8:
+		c.Req, c.ReqVia = genReq(t), "parse"
+	default:
+		c.Req = genReq(t)
+	}
 	n := rapid.IntRange(0, 4).Draw(t, "n")
-	c := Case{Req: req, API: true, Entries: []Plat{}}
+	if rapid.IntRange(0, 11).Draw(t, "long") == 0 {
+		n = rapid.IntRange(5, 10).Draw(t, "n_long")
+	}
 	for i := 0; i < n; i++ {
-		c.Entries = append(c.Entries, genEntry(t, req))
+		c.Entries = append(c.Entries, genEntry(t, c.Req))
+	}
+	if rapid.IntRange(0, 5).Draw(t, "filtered") == 0 {
+		c.Filter = rapid.SampledFrom(filterDraw).Draw(t, "filter")
+		for i := 0; i < n; i++ {
+			c.Attr = append(c.Attr, EntAttr{AT: rapid.IntRange(0, 3).Draw(t, "at") > 0, Ann: rapid.IntRange(0, 3).Draw(t, "ann") > 0,
+				Sort: rapid.SampledFrom([]string{"", "2024-01-01T00:00:00Z", "2024-06-01T00:00:00Z", "2025-01-01T00:00:00Z"}).Draw(t, "sortv")})
+		}
 	}
 	return c
 }
@@ -244,11 +359,11 @@ func init() {
 	}
 }
 
-var posDigest [4]digest.Digest
+var posDigest [maxN]digest.Digest
 
 func init() {
 	for i := range posDigest {
-		posDigest[i] = digest.Digest("sha256:" + strings.Repeat("0", 63) + strconv.Itoa(i+1))
+		posDigest[i] = digest.Digest("sha256:" + strings.Repeat("0", 62) + fmt.Sprintf("%02d", i+1))
 	}
 }
 
@@ -258,10 +373,11 @@ type entInfo struct {
 	rc    tri
 	why   string
 	exact bool
+	elig  bool // passes the additional MatchOpt filters of the case
 }
 
 var (
-	kLabel     = [5]string{"entries:0", "entries:1", "entries:2", "entries:3", "entries:4"}
+	kLabel     = [6]string{"entries:0", "entries:1", "entries:2", "entries:3", "entries:4", "entries:5-10"}
 	yesLabel   = [4]string{"runnable:0", "runnable:1", "runnable:2", "runnable:3+"}
 	reqOSLabel = map[string]string{"linux": "req-os:linux", "windows": "req-os:windows", "darwin": "req-os:darwin", "freebsd": "req-os:freebsd"}
 )
@@ -275,16 +391,59 @@ func multisetKey(req Plat, es []Plat) string {
 	return req.key() + "|" + strings.Join(ks, ";")
 }
 
-func descList(ents []entInfo, order []int, plats *[4]platform.Platform, dl *[4]descriptor.Descriptor) []descriptor.Descriptor {
+func descList(c *Case, ents []entInfo, order []int, plats []platform.Platform, dl []descriptor.Descriptor) []descriptor.Descriptor {
 	for k, idx := range order {
 		d := descriptor.Descriptor{MediaType: mediatype.OCI1Manifest, Digest: posDigest[idx], Size: int64(100 + idx)}
 		if !ents[idx].p.Nil {
 			plats[k] = toPlatform(ents[idx].p)
 			d.Platform = &plats[k]
 		}
+		if c.Filter != "" {
+			var a EntAttr
+			if idx < len(c.Attr) {
+				a = c.Attr[idx]
+			}
+			d.ArtifactType = otherAT
+			if a.AT {
+				d.ArtifactType = wantedAT
+			}
+			if a.Ann || a.Sort != "" {
+				d.Annotations = map[string]string{}
+				if a.Ann {
+					d.Annotations[selAnnot] = "yes"
+				}
+				if a.Sort != "" {
+					d.Annotations[sortAnnot] = a.Sort
+				}
+			}
+		}
 		dl[k] = d
 	}
+	if len(order) == 0 {
+		return nil
+	}
 	return dl[:len(order)]
+}
+
+// ordersFor: every permutation up to 4 entries; beyond that the identity, the
+// reverse and every rotation.
+func ordersFor(n int) [][]int {
+	if n <= 4 {
+		return perms[n]
+	}
+	var out [][]int
+	for r := 0; r < n; r++ {
+		o := make([]int, n)
+		for i := range o {
+			o[i] = (i + r) % n
+		}
+		out = append(out, o)
+	}
+	rev := make([]int, n)
+	for i := range rev {
+		rev[i] = n - 1 - i
+	}
+	return append(out, rev)
 }
 
 func whichEntry(d digest.Digest, n int) int {
@@ -316,7 +475,7 @@ func judge(via string, c Case, h canon, comp interface {
 			return evid.V("search-error-other-than-notfound", "%s: %v; %s", via, err, show())
 		}
 		for _, e := range ents {
-			if e.rc == yes {
+			if e.rc == yes && e.elig {
 				return evid.V("runnable-entry-not-found:"+h.os+"-host-"+e.c.os+"-entry", "%s: NotFound although entry %s is runnable; %s", via, e.c.show(), show())
 			}
 		}
@@ -326,11 +485,14 @@ func judge(via string, c Case, h canon, comp interface {
 		return evid.V("chosen-entry-not-in-list", "%s: returned a descriptor that is not in the list; %s", via, show())
 	}
 	ch := ents[chosen]
+	if !ch.elig {
+		return evid.V("chosen-entry-fails-filter", "%s: chose [%d]%s which does not pass the %q filter; %s", via, chosen, ch.c.show(), c.Filter, show())
+	}
 	if ch.rc == no {
 		return evid.V("chosen-entry-not-runnable:"+ch.why, "%s: chose [%d]%s which the request cannot run (%s); %s", via, chosen, ch.c.show(), ch.why, show())
 	}
 	for i, e := range ents {
-		if i == chosen || e.p.Nil {
+		if i == chosen || e.p.Nil || !e.elig {
 			continue
 		}
 		if e.exact && !ch.exact {
@@ -355,20 +517,66 @@ func check(c Case, ev *evid.Collector) *evid.Violation {
 	case "string":
 		return checkString(c, ev)
 	}
+	// the request as the code receives it
+	var hp platform.Platform
+	viaLabel := "" // struct: the bulk, not labelled
+	switch c.ReqVia {
+	case "":
+		hp = toPlatform(c.Req)
+	case "parse":
+		viaLabel = "req-via:parse"
+		if c.Req.Nil || c.Req.OS == "" || c.Req.Arch == "" {
+			ev.Case(false, "", "outside-domain")
+			return nil
+		}
+		s := assemble(c.Req, func(s string) string { return s }, "osver")
+		var err error
+		if hp, err = platform.Parse(s); err != nil {
+			ev.Case(false, "", viaLabel)
+			return evid.V("parse-rejects-universe-string", "Parse(%q): %v", s, err)
+		}
+	case "local", "local-os", "local-arch":
+		viaLabel = "req-via:" + c.ReqVia
+		c.Req = localPlat()
+		s := map[string]string{"local": "local", "local-os": c.Req.OS, "local-arch": c.Req.Arch}[c.ReqVia]
+		var err error
+		if hp, err = platform.Parse(s); err != nil {
+			ev.Case(false, "", viaLabel)
+			return evid.V("parse-rejects-universe-string", "Parse(%q): %v", s, err)
+		}
+		if lp := platform.Local(); hp.OS != lp.OS || hp.Architecture != lp.Architecture || hp.Variant != lp.Variant || hp.OSVersion != lp.OSVersion {
+			ev.Case(false, "", viaLabel)
+			return evid.V("parse-short-form-not-local", "Parse(%q) = %+v, but the local platform is %+v", s, hp, lp)
+		}
+	default:
+		ev.Case(false, "", "outside-domain")
+		return nil
+	}
 	h := refNorm(c.Req)
 	n := len(c.Entries)
-	if !h.ok || h.arch == "" || h.os == "" || n > 4 {
+	if !h.ok || h.arch == "" || h.os == "" || n > maxN {
 		ev.Case(false, "", "outside-domain")
 		return nil
 	}
 	var entsA [4]entInfo
-	ents := entsA[:n]
+	var platsA [4]platform.Platform
+	var dlA [4]descriptor.Descriptor
+	ents, plats, dlS := entsA[:], platsA[:], dlA[:]
+	if n > 4 {
+		ents, plats, dlS = make([]entInfo, n), make([]platform.Platform, n), make([]descriptor.Descriptor, n)
+	}
+	ents = ents[:n]
 	nYes, nUns, anyExact, hasNil, distinctYes := 0, 0, false, false, false
 	var firstYes canon
 	for i, p := range c.Entries {
-		e := entInfo{p: p, c: refNorm(p)}
+		e := entInfo{p: p, c: refNorm(p), elig: c.Filter == "" || c.eligible(i)}
 		e.rc, e.why = refCompatible(h, e.c)
 		e.exact = refExact(h, e.c)
+		if !e.elig {
+			ents[i] = e
+			hasNil = hasNil || p.Nil
+			continue
+		}
 		switch e.rc {
 		case yes:
 			if nYes == 0 {
@@ -403,18 +611,24 @@ func check(c Case, ev *evid.Collector) *evid.Violation {
 	if y > 3 {
 		y = 3
 	}
-	ev.Case(nt, key, kLabel[n], yesLabel[y], reqOSLabel[h.os], l1, l2, l3)
+	kl := n
+	if kl > 5 {
+		kl = 5
+	}
+	l4 := ""
+	if c.Filter != "" {
+		l4 = "filter:" + c.Filter
+	}
+	ev.Case(nt, key, kLabel[kl], yesLabel[y], reqOSLabel[h.os], l1, l2, l3, l4, viaLabel)
 	ev.Sample(c)
 
-	hp := toPlatform(c.Req)
 	comp := platform.NewCompare(hp)
-	var plats [4]platform.Platform
-	var dlA [4]descriptor.Descriptor
 	firstChosen := -1
-	for pi, order := range perms[n] {
-		dl := descList(ents, order, &plats, &dlA)
+	orders := ordersFor(n)
+	for pi, order := range orders {
+		dl := descList(&c, ents, order, plats, dlS)
 		req := hp
-		got, err := descriptor.DescriptorListSearch(dl, descriptor.MatchOpt{Platform: &req})
+		got, err := descriptor.DescriptorListSearch(dl, c.matchOpt(&req))
 		chosen := -1
 		if err == nil {
 			chosen = whichEntry(got.Digest, n)
@@ -436,16 +650,19 @@ func check(c Case, ev *evid.Collector) *evid.Violation {
 				b = ents[chosen].c.show()
 			}
 			return evid.V("choice-depends-on-list-order", "request %s: entries listed in order %v give %s, in order %v give %s; entries: %s",
-				h.show(), perms[n][0], a, order, b, multisetKey(c.Req, c.Entries))
+				h.show(), orders[0], a, order, b, multisetKey(c.Req, c.Entries))
 		}
 	}
+	if c.Filter != "" {
+		return nil // GetPlatformDesc and ManifestGet take no filter
+	}
 	if c.API {
-		if v := checkAPI(c, h, comp, ents, firstChosen); v != nil {
+		if v := checkAPI(c, h, hp, comp, ents, firstChosen); v != nil {
 			return v
 		}
 	}
 	if c.E2E {
-		if v := checkE2E(c, h, ents, firstChosen); v != nil {
+		if v := checkE2E(c, h, hp, ents, firstChosen); v != nil {
 			return v
 		}
 	}
@@ -453,23 +670,34 @@ func check(c Case, ev *evid.Collector) *evid.Violation {
 }
 
 // checkAPI: the same list behind manifest.GetPlatformDesc (package function and
-// the deprecated method) for an OCI index and a Docker manifest list.
-func checkAPI(c Case, h canon, comp interface {
+// the deprecated method) for an OCI index and a Docker manifest list, each built
+// from the Go struct and parsed from its JSON body.
+func checkAPI(c Case, h canon, hp platform.Platform, comp interface {
 	Better(target, prev platform.Platform) bool
 }, ents []entInfo, want int) *evid.Violation {
 	n := len(ents)
-	var plats [4]platform.Platform
-	var dlA [4]descriptor.Descriptor
-	order := perms[n][0]
-	dl := append([]descriptor.Descriptor{}, descList(ents, order, &plats, &dlA)...)
-	hp := toPlatform(c.Req)
-	for _, kind := range []string{"oci-index", "docker-manifest-list"} {
+	order := ordersFor(n)[0]
+	dl := append([]descriptor.Descriptor{}, descList(&c, ents, order, make([]platform.Platform, n), make([]descriptor.Descriptor, n))...)
+	kinds := []string{"oci-index", "docker-manifest-list", "oci-index-json", "docker-manifest-list-json"}
+	if !c.APIJSON {
+		kinds = kinds[:2]
+	}
+	for _, kind := range kinds {
 		var m manifest.Manifest
 		var err error
-		if kind == "oci-index" {
-			m, err = manifest.New(manifest.WithOrig(v1.Index{Versioned: v1.IndexSchemaVersion, MediaType: mediatype.OCI1ManifestList, Manifests: dl}))
+		var orig any = v1.Index{Versioned: v1.IndexSchemaVersion, MediaType: mediatype.OCI1ManifestList, Manifests: dl}
+		mt := mediatype.OCI1ManifestList
+		if strings.HasPrefix(kind, "docker") {
+			orig, mt = schema2.ManifestList{Versioned: schema2.ManifestListSchemaVersion, Manifests: dl}, mediatype.Docker2ManifestList
+		}
+		if strings.HasSuffix(kind, "-json") {
+			raw, jerr := json.Marshal(orig)
+			if jerr != nil {
+				panic("harness: " + jerr.Error())
+			}
+			m, err = manifest.New(manifest.WithRaw(raw), manifest.WithDesc(descriptor.Descriptor{MediaType: mt}))
 		} else {
-			m, err = manifest.New(manifest.WithOrig(schema2.ManifestList{Versioned: schema2.ManifestListSchemaVersion, Manifests: dl}))
+			m, err = manifest.New(manifest.WithOrig(orig))
 		}
 		if err != nil {
 			panic(fmt.Sprintf("harness: cannot build %s: %v", kind, err))
@@ -501,35 +729,44 @@ func checkAPI(c Case, h canon, comp interface {
 
 var rcShared *regclient.RegClient
 
-func sha(b []byte) digest.Digest {
+func dig(alg string, b []byte) digest.Digest {
+	if alg == "sha512" {
+		s := sha512.Sum512(b)
+		return digest.Digest("sha512:" + hex.EncodeToString(s[:]))
+	}
 	s := sha256.Sum256(b)
 	return digest.Digest("sha256:" + hex.EncodeToString(s[:]))
 }
 
-// checkE2E writes the list as an OCI image layout (index -> one image manifest
-// per entry) and resolves it with ManifestGet(WithManifestPlatform).
-func checkE2E(c Case, h canon, ents []entInfo, want int) *evid.Violation {
-	dir, err := os.MkdirTemp("", "c16-layout-")
-	if err != nil {
-		panic("harness: " + err.Error())
+const e2eHost = "c16.example.test"
+
+// checkE2E stores the list (index -> one image manifest per entry) in an OCI
+// layout or an in-memory registry and resolves it with ManifestGet and
+// ManifestHead with WithManifestPlatform.
+func checkE2E(c Case, h canon, hp platform.Platform, ents []entInfo, want int) *evid.Violation {
+	opt := E2EOpt{}
+	if c.E2EOpt != nil {
+		opt = *c.E2EOpt
 	}
-	defer os.RemoveAll(dir)
-	blobs := filepath.Join(dir, "blobs", "sha256")
 	must := func(err error) {
 		if err != nil {
 			panic("harness: " + err.Error())
 		}
 	}
-	must(os.MkdirAll(blobs, 0o755))
-	put := func(b []byte) digest.Digest {
-		d := sha(b)
-		must(os.WriteFile(filepath.Join(blobs, d.Encoded()), b, 0o644))
+	type stored struct {
+		mt   string
+		body []byte
+	}
+	store := map[digest.Digest]stored{}
+	put := func(alg, mt string, b []byte) digest.Digest {
+		d := dig(alg, b)
+		store[d] = stored{mt, b}
 		return d
 	}
 	cfg := []byte("{}")
-	cfgD := put(cfg)
+	cfgD := dig("sha256", cfg)
 	child := make([]digest.Digest, len(ents))
-	idx := v1.Index{Versioned: v1.IndexSchemaVersion, MediaType: mediatype.OCI1ManifestList, Manifests: []descriptor.Descriptor{}}
+	dl := []descriptor.Descriptor{}
 	for i, e := range ents {
 		mb, _ := json.Marshal(map[string]any{
 			"schemaVersion": 2, "mediaType": mediatype.OCI1Manifest,
@@ -537,39 +774,86 @@ func checkE2E(c Case, h canon, ents []entInfo, want int) *evid.Violation {
 			"layers":      []any{},
 			"annotations": map[string]string{"verif.entry": strconv.Itoa(i)},
 		})
-		child[i] = put(mb)
+		alg := "sha256"
+		if opt.Sha512 && i%2 == 1 {
+			alg = "sha512"
+		}
+		child[i] = put(alg, mediatype.OCI1Manifest, mb)
 		d := descriptor.Descriptor{MediaType: mediatype.OCI1Manifest, Digest: child[i], Size: int64(len(mb))}
 		if !e.p.Nil {
 			p := toPlatform(e.p)
 			d.Platform = &p
 		}
-		idx.Manifests = append(idx.Manifests, d)
+		dl = append(dl, d)
 	}
-	ib, err := json.Marshal(idx)
+	var listOrig any = v1.Index{Versioned: v1.IndexSchemaVersion, MediaType: mediatype.OCI1ManifestList, Manifests: dl}
+	listMT := mediatype.OCI1ManifestList
+	if opt.Docker {
+		listOrig, listMT = schema2.ManifestList{Versioned: schema2.ManifestListSchemaVersion, Manifests: dl}, mediatype.Docker2ManifestList
+	}
+	lb, err := json.Marshal(listOrig)
 	must(err)
-	iD := put(ib)
-	top, _ := json.Marshal(map[string]any{"schemaVersion": 2, "manifests": []any{map[string]any{
-		"mediaType": mediatype.OCI1ManifestList, "digest": iD.String(), "size": len(ib),
-		"annotations": map[string]string{"org.opencontainers.image.ref.name": "t"}}}})
-	must(os.WriteFile(filepath.Join(dir, "index.json"), top, 0o644))
-	must(os.WriteFile(filepath.Join(dir, "oci-layout"), []byte(`{"imageLayoutVersion":"1.0.0"}`), 0o644))
-
-	if rcShared == nil {
-		rcShared = regclient.New()
+	topD, topMT, topLen := put("sha256", listMT, lb), listMT, len(lb)
+	if opt.Nested {
+		rp := toPlatform(c.Req)
+		ob, err := json.Marshal(v1.Index{Versioned: v1.IndexSchemaVersion, MediaType: mediatype.OCI1ManifestList,
+			Manifests: []descriptor.Descriptor{{MediaType: listMT, Digest: topD, Size: int64(len(lb)), Platform: &rp}}})
+		must(err)
+		topD, topMT, topLen = put("sha256", mediatype.OCI1ManifestList, ob), mediatype.OCI1ManifestList, len(ob)
 	}
-	r, err := ref.New("ocidir://" + dir + ":t")
+
+	var rc *regclient.RegClient
+	var base string
+	if opt.Endpoint == "registry" {
+		m := rm.New()
+		repo := m.AddHost(e2eHost).Repo("r")
+		for d, st := range store {
+			repo.Manifests[d.String()] = &rm.Manifest{MediaType: st.mt, Body: st.body}
+		}
+		repo.Tags["t"] = topD.String()
+		rc = rcutil.New(m, rcutil.Conf{})
+		base = e2eHost + "/r"
+	} else {
+		dir, err := os.MkdirTemp("", "c16-layout-")
+		must(err)
+		defer os.RemoveAll(dir)
+		store[cfgD] = stored{mediatype.OCI1ImageConfig, cfg}
+		for d, st := range store {
+			bd := filepath.Join(dir, "blobs", d.Algorithm().String())
+			must(os.MkdirAll(bd, 0o755))
+			must(os.WriteFile(filepath.Join(bd, d.Encoded()), st.body, 0o644))
+		}
+		top, _ := json.Marshal(map[string]any{"schemaVersion": 2, "manifests": []any{map[string]any{
+			"mediaType": topMT, "digest": topD.String(), "size": topLen,
+			"annotations": map[string]string{"org.opencontainers.image.ref.name": "t"}}}})
+		must(os.WriteFile(filepath.Join(dir, "index.json"), top, 0o644))
+		must(os.WriteFile(filepath.Join(dir, "oci-layout"), []byte(`{"imageLayoutVersion":"1.0.0"}`), 0o644))
+		if rcShared == nil {
+			rcShared = regclient.New()
+		}
+		rc = rcShared
+		base = "ocidir://" + dir
+	}
+	rs := base + ":t"
+	switch opt.RefForm {
+	case "digest":
+		rs = base + "@" + topD.String()
+	case "tag+digest":
+		rs = base + ":t@" + topD.String()
+	}
+	r, err := ref.New(rs)
 	must(err)
 	ctx := context.Background()
-	// sanity of the harness: the index itself must be readable
-	if _, err := rcShared.ManifestGet(ctx, r); err != nil {
-		panic("harness: layout unreadable: " + err.Error())
+	// sanity of the harness: the list itself must be readable
+	if _, err := rc.ManifestGet(ctx, r); err != nil {
+		panic("harness: stored list unreadable: " + err.Error())
 	}
 	for _, op := range []string{"ManifestGet", "ManifestHead"} {
 		var m manifest.Manifest
 		if op == "ManifestGet" {
-			m, err = rcShared.ManifestGet(ctx, r, regclient.WithManifestPlatform(toPlatform(c.Req)))
+			m, err = rc.ManifestGet(ctx, r, regclient.WithManifestPlatform(hp))
 		} else {
-			m, err = rcShared.ManifestHead(ctx, r, regclient.WithManifestPlatform(toPlatform(c.Req)))
+			m, err = rc.ManifestHead(ctx, r, regclient.WithManifestPlatform(hp))
 		}
 		chosen := -1
 		if err == nil {
@@ -581,11 +865,11 @@ func checkE2E(c Case, h canon, ents []entInfo, want int) *evid.Violation {
 				}
 			}
 		} else if !errors.Is(err, errs.ErrNotFound) {
-			return evid.V("manifestget-error-other-than-notfound", "%s(WithManifestPlatform(%s)): %v; entries %s", op, h.show(), err, multisetKey(c.Req, c.Entries))
+			return evid.V("manifestget-error-other-than-notfound", "%s(WithManifestPlatform(%s)) on %+v: %v; entries %s", op, h.show(), opt, err, multisetKey(c.Req, c.Entries))
 		}
 		if chosen != want {
-			return evid.V("manifestget-differs-from-list-search", "%s(WithManifestPlatform(%s)) resolved to entry %d, DescriptorListSearch chose %d (-1 = NotFound, -2 = not a listed entry); entries in order: %s",
-				op, h.show(), chosen, want, entriesInOrder(ents))
+			return evid.V("manifestget-differs-from-list-search", "%s(WithManifestPlatform(%s)) on %+v resolved to entry %d, DescriptorListSearch chose %d (-1 = NotFound, -2 = not a listed entry); entries in order: %s",
+				op, h.show(), opt, chosen, want, entriesInOrder(ents))
 		}
 	}
 	return nil
@@ -690,6 +974,10 @@ func checkString(cs Case, ev *evid.Collector) *evid.Violation {
 	ev.Case(false, "", "kind:string", cl, cl2)
 	ev.Sample(cs)
 	want := refNorm(c.Comp)
+	localOS := c.Comp.OS == "local" // "local/<arch>": the OS of the machine running the check
+	if localOS {
+		want.os = platform.Local().OS
+	}
 	p, err := platform.Parse(c.Str)
 	if err != nil {
 		return evid.V("parse-rejects-universe-string", "Parse(%q): %v", c.Str, err)
@@ -722,7 +1010,7 @@ func checkString(cs Case, ev *evid.Collector) *evid.Violation {
 	if s2 := p1.String(); s2 != s1 {
 		return evid.V("string-parse-not-fixed-point", "Parse(%q): %q re-parses and prints as %q", c.Str, s1, s2)
 	}
-	if !archOnly {
+	if !archOnly && !localOS {
 		// printing the platform as spelled (not yet normalised) gives the same normal form
 		if s3 := toPlatform(c.Comp).String(); s3 != s1 {
 			return evid.V("string-of-alias-not-canonical", "Platform%+v.String() = %q, Parse(%q).String() = %q", c.Comp, s3, c.Str, s1)
@@ -744,17 +1032,44 @@ func TestVerifProp(t *testing.T) {
 	})
 }
 
-// TestVerifE2E: drawn lists resolved through a real OCI layout.
+// TestVerifE2E: drawn lists resolved through a real OCI layout or an in-memory
+// registry, addressed by tag / digest / both, as OCI index or Docker manifest
+// list, optionally below an outer index and with sha512 children.
 func TestVerifE2E(t *testing.T) {
 	ev := evid.For(prop)
 	rapid.Check(t, func(rt *rapid.T) {
-		req := genReq(rt)
-		n := rapid.IntRange(0, 4).Draw(rt, "n")
-		c := Case{Req: req, E2E: true, Entries: []Plat{}}
-		for i := 0; i < n; i++ {
-			c.Entries = append(c.Entries, genEntry(rt, req))
+		c := genSelect(rt)
+		c.API, c.APIJSON, c.E2E, c.Filter, c.Attr = false, false, true, "", nil
+		if len(c.Entries) > 4 {
+			c.Entries = c.Entries[:4]
 		}
-		ev.Class("via-manifestget-on-oci-layout")
+		o := &E2EOpt{
+			Endpoint: rapid.SampledFrom([]string{"", "registry"}).Draw(rt, "endpoint"),
+			RefForm:  rapid.SampledFrom([]string{"", "", "digest", "tag+digest"}).Draw(rt, "ref_form"),
+			Docker:   rapid.IntRange(0, 2).Draw(rt, "docker") == 0,
+			Nested:   rapid.IntRange(0, 3).Draw(rt, "nested") == 0,
+			Sha512:   rapid.IntRange(0, 3).Draw(rt, "sha512") == 0,
+		}
+		c.E2EOpt = o
+		ep := "ocidir"
+		if o.Endpoint != "" {
+			ep = o.Endpoint
+		}
+		ev.Class("e2e-endpoint:" + ep)
+		rf := "tag"
+		if o.RefForm != "" {
+			rf = o.RefForm
+		}
+		ev.Class("e2e-ref:" + rf)
+		if o.Docker {
+			ev.Class("e2e-docker-manifest-list")
+		}
+		if o.Nested {
+			ev.Class("e2e-nested-index")
+		}
+		if o.Sha512 {
+			ev.Class("e2e-sha512-children")
+		}
 		v := evid.Guard(func() *evid.Violation { return check(c, ev) })
 		if ev.Report(v, c) {
 			rt.Fatalf("%v", v)
@@ -991,7 +1306,7 @@ func TestVerifStrings(t *testing.T) {
 		}
 		return fails < maxFailsPerShard
 	}
-	for _, o := range append([]string{"macos", ""}, osList...) {
+	for _, o := range append([]string{"macos", "local", ""}, osList...) {
 		for _, av := range archVariants {
 			if o == "" && av[1] != "" {
 				continue
